@@ -24,8 +24,8 @@ _FACETS = ["C10/" + t[0] for t in _TARGETS]
 # (unit, tests, facets, checks per shard (quick, thorough), shards (quick, thorough))
 _GROUPS = [
     ("c10-mut-chain", ["Chain"], ["C10/chain"], (10000, 40000), (2, 16)),
-    ("c10-mut-html", ["HTML"], ["C10/html"], (10000, 40000), (2, 16)),
-    ("c10-mut-script", ["Script"], ["C10/script"], (10000, 40000), (2, 16)),
+    ("c10-mut-html", ["HTML"], ["C10/html"], (5000, 30000), (4, 16)),      # ~15 ms a case: Zeno runs the strict link regex (~1 MB/s) over every text body
+    ("c10-mut-script", ["Script"], ["C10/script"], (5000, 30000), (4, 16)),
     ("c10-mut-pdf", ["PDF"], ["C10/pdf"], (5000, 15000), (4, 16)),
     ("c10-mut-doc", ["JSON", "XML"], ["C10/json", "C10/xml"], (10000, 40000), (2, 16)),
     ("c10-mut-list", ["S3", "M3U8", "LinkHeader"], ["C10/s3", "C10/m3u8", "C10/linkheader"], (10000, 40000), (2, 16)),
@@ -51,6 +51,7 @@ for _t, _n, _f in _TARGETS:
 for _key, _timeout in [
     ("C10-extractor.PDF-pdfcpu-stackoverflow-pagetree-cycle", 300),
     ("C10-extractor.PDF-pdfcpu-hang-nested-dict", 300),
+    ("C10-extractor.PDF-pdfcpu-hang-int-overflow", 300),
     ("C10-extractor.PDF-pdfcpu-oom-huge-length", 300),
     ("C10-extractor.PDF-pdfcpu", 300),
     ("C10-extractor.M3U8-m3u8-memory-blowup", 600),
